@@ -151,6 +151,17 @@ func TestVerifC19Redis(t *testing.T) {
 				go func(i int) { defer wg.Done(); out[i] = ask(name) }(i)
 			}
 			wg.Wait()
+			// This part runs on the wall clock. On a machine too busy to send the queries when they were due (the entry lives 8 s,
+			// the latest hit is due at +7.3 s) the entry may have expired by the time the router looks - then asking redis and the
+			// upstream is right. Such a step is not judged (noted as a cap); the virtual-clock parts decide the same property.
+			late := time.Duration(0)
+			for _, a := range out {
+				late = max(late, a.sent.Sub(fetched.Add(at)))
+			}
+			if late > 300*time.Millisecond {
+				rep.Cap(fmt.Sprintf("redis-slow %s: %s sent %v late (machine busy): not judged", nm, what, late.Round(time.Millisecond)))
+				return out
+			}
 			for _, a := range out {
 				if a.m == nil {
 					fail("hit-not-answered", fmt.Sprintf("%s: %s: no response within 5.5 s", nm, what))
@@ -158,6 +169,12 @@ func TestVerifC19Redis(t *testing.T) {
 					fail("hit-not-answered", fmt.Sprintf("%s: %s: response %s", nm, what, a.m.Canon()))
 				}
 				if w, why := waited(a); w {
+					if a.m != nil && len(a.m.An) > 0 && a.m.An[0].TTL >= 5 {
+						// a freshly fetched answer (TTL 8): the router found the entry expired - it handled the query later than it
+						// was sent - and went the whole way; no hit was delayed
+						rep.Cap(fmt.Sprintf("redis-slow %s: %s was handled after the entry had expired (fresh TTL %d): not judged", nm, what, a.m.An[0].TTL))
+						continue
+					}
 					fail("hit-waited-for-redis", fmt.Sprintf("%s: %s on an entry held in memory: %s", nm, what, why))
 				}
 			}
